@@ -122,7 +122,7 @@ def leafValInUse : List STree → (lvl : List DNode) → Option Bytes
 
 
 /-- the value the comparison uses: the instance's, else the schema default of the leaf — whatever the ancestors in the
-defective code (F60), only when that default is in use in the repaired one (`lyd_val_uniq_dflt_in_use`) -/
+defective code (F175), only when that default is in use in the repaired one (`lyd_val_uniq_dflt_in_use`) -/
 def uniqVal (X : SchemaX) (lst : Nat) (inst : DNode) (leaf : Nat) : Option Bytes :=
   let S := X.base
   match uniqFind (uniqChain S lst leaf) inst with
